@@ -18,7 +18,7 @@ from harness.world import World, build_real, observe
 def _renderer(kind):
     if kind == "ident":
         return names.dotted, None
-    rn = names.rho_clean() if kind == "clean" else names.rho_adversarial()
+    rn = {"clean": names.rho_clean, "adv": names.rho_adversarial, "adv2": names.rho_adversarial2}[kind]()
     return rn.name, rn.back
 
 
